@@ -117,7 +117,7 @@ def aggregate(results):
            "reach": {}, "validators": {"entered": {}, "raised": {}}, "violations": [],
            "violation_count": 0, "violation_keys": {}, "samples": [], "notes": {}, "notes_by_shard": [],
            "inconclusive": [], "hashseeds": [], "audit_events": 0, "harvest": {}, "shard_wall": [],
-           "broken": []}
+           "broken": [], "reach_absent": set()}
     for r in results:
         res = r["res"]
         if r["rc"] == 3:
@@ -128,6 +128,7 @@ def aggregate(results):
                                        % (r["shard"], r["rc"], r["log"][-600:].replace("\n", " | ")))
             continue
         agg["hashseeds"].append(r["hashseed"])
+        agg["reach_absent"].update(res.get("reach_absent", []))
         agg["evaluations"] += res["evaluations"]
         agg["trivial"] += res.get("trivial", 0)
         agg["distinct_by_construction"] += res.get("distinct_by_construction", 0)
@@ -303,6 +304,8 @@ def conclude(mod, prop, tier, seed, repo, plan, agg, t0, write_evidence=True):
     if agg["reach"]:
         for fn in required:
             alts = fn if isinstance(fn, (list, tuple)) else [fn]
+            if all(a in agg["reach_absent"] for a in alts):
+                continue          # the anchor no longer exists under that name (refactored); nothing to starve
             if not any(agg["reach"].get(a, 0) > 0 for a in alts):
                 inconclusive.append("anchored function never entered: %s" % "|".join(alts))
     elif required:
@@ -396,6 +399,7 @@ def conclude(mod, prop, tier, seed, repo, plan, agg, t0, write_evidence=True):
                                     max([agg["reach"].get(a, 0) for a in (f if isinstance(f, (list, tuple)) else [f])] or [0]))
                                    for f in required),
             "reach_functions_entered": len([k for k, v in agg["reach"].items() if v > 0]),
+            "reach_anchors_absent_in_this_tree": sorted(agg["reach_absent"]),
             "reach_note": "counts saturate at the per-shard cap (%s) times the number of shards" % (
                 (plan.get("params") or {}).get("reach_cap", 200)),
             "validators_entered": len([k for k, v in agg["validators"]["entered"].items() if v > 0]),
